@@ -24,6 +24,18 @@ CANONISERS = {"builtins.sorted", "builtins.set", "builtins.frozenset", "builtins
 SET_TYPES = ("set[", "frozenset[", "builtins.set", "builtins.frozenset", "typing.AbstractSet[", "AbstractSet[", "Set[")
 
 
+def _injective_key(key: ast.AST) -> bool:
+    """A sort key under which distinct elements never tie: identity, str, repr, tuple-of-everything ... (conservative)."""
+    t = ast.unparse(key)
+    if t in ("str", "repr", "None", "lambda x: x", "tuple", "os.fspath", "Path.as_posix"):
+        return True
+    if isinstance(key, ast.Lambda) and len(key.args.args) == 1:
+        x = key.args.args[0].arg
+        b = ast.unparse(key.body)
+        return b in (x, f"str({x})", f"repr({x})", f"{x}.as_posix()", f"{x}.parts", f"({x},)", f"tuple({x})")
+    return False
+
+
 @dataclass
 class Sink:
     kind: str          # S1 regex / S2 first element / S3 first match / S4 most_common / S5 rendered text
@@ -75,6 +87,13 @@ class OrderTaint:
             if first in FS_ORDER or first.replace("pathlib.PosixPath", "pathlib.Path") in FS_ORDER:
                 return f"file-system enumeration order ({first})"
             if first in CANONISERS:
+                if first == "builtins.sorted" and e.args:
+                    key = next((kw.value for kw in e.keywords if kw.arg == "key"), None)
+                    if key is not None and not _injective_key(key):
+                        # elements that compare equal under the key keep their INPUT order (sorted is stable)
+                        inner = self.src(q, e.args[0])
+                        if inner:
+                            return f"{inner} (ties under key={ast.unparse(key)[:30]} keep that order)"
                 return None
             if first == "builtins.dict.keys" or last in ("keys", "values", "items") and isinstance(e.func, ast.Attribute):
                 return self.src(q, e.func.value)
